@@ -82,7 +82,10 @@ def describe(e):
     if isinstance(e, str):
         return ("keyname", e)
     if isinstance(e, events.PasteEvent):
-        return ("paste", list(e.events))
+        evs = list(e.events)
+        if not all(isinstance(k, bytes) for k in evs) and any(isinstance(k, bytes) for k in evs):
+            return ("other", "paste event mixing key types: %r" % (evs[:6],))
+        return ("paste", evs)
     if isinstance(e, Ev):
         return ("ev", e.src, e.i)
     if isinstance(e, Sch):
@@ -524,7 +527,7 @@ def run_conc(ctx, case, yields=None):
                 if ret[0] == "none":
                     # a threadsafe trigger that returned long before this request gave up must
                     # have woken it
-                    if to >= 0.3 and any(t0 + 0.02 < t < t1 - 0.25 for t in ts_times):
+                    if to >= 0.3 and any(t0 < t < t1 - 0.25 for t in ts_times):
                         problems.append(("missed-wakeup", {"timeout": to, "elapsed": t1 - t0}))
                     if not th.is_alive():
                         # everything has been sent: wait for arrival, then require two idle rounds
@@ -557,7 +560,87 @@ def run_conc(ctx, case, yields=None):
     finish_history(ctx, case, hist, problems)
 
 
+def run_pingpong(ctx, case, yields=None):
+    """Wake-up stress: in every round exactly one threadsafe trigger is fired by a helper
+    thread at (about) the moment the main thread starts a request; the request must return
+    that event - a request that gives up after its whole timeout although the callback had
+    returned long before has lost the wake-up."""
+    R = rig()
+    Ev, Sch = _CLS[0]
+    R.pty.drain_slave()
+    inp = R.ci.Input(R.pty.stream, keynames="bytes", sigint_event=False)
+    ts = inp.threadsafe_event_trigger(Ev)
+    rounds = case["rounds"]
+    import random as _r
+    rng = _r.Random(case["seed"])
+    go = threading.Semaphore(0)
+    done = threading.Event()
+    fired = {}
+
+    def helper():
+        for i in range(rounds):
+            go.acquire()
+            d = delays[i]
+            if d:
+                t_end = time.perf_counter() + d
+                while time.perf_counter() < t_end:
+                    pass
+            ts(src="pp", i=i)
+            fired[i] = time.monotonic()
+        done.set()
+
+    delays = [rng.choice([0, 0, 1e-5, 3e-5, 1e-4, 3e-4, 1e-3]) for _ in range(rounds)]
+    th = threading.Thread(target=helper, name="helper")
+    lost = []
+    got_wrong = []
+    try:
+        with inp:
+            th.start()
+            if yields:
+                yields.start(case["seed"])
+            for i in range(rounds):
+                go.release()
+                t0 = time.monotonic()
+                e = inp.send(0.4)
+                t1 = time.monotonic()
+                ret = describe(e)
+                if ret[0] == "none":
+                    # wait until the callback has certainly returned, then look again
+                    while i not in fired and time.monotonic() < t1 + 10:
+                        time.sleep(0.001)
+                    if i not in fired:
+                        ctx.count("pingpong_helper_starved")      # machine too loaded: judge nothing
+                        break
+                    if fired[i] < t1 - 0.2:
+                        lost.append({"round": i, "delay": delays[i], "waited": t1 - t0,
+                                     "callback_returned_before_giving_up_by": t1 - fired[i]})
+                    e2 = inp.send(0.4)
+                    if describe(e2) != ("ev", "pp", i):
+                        got_wrong.append({"round": i, "second": describe(e2)})
+                elif ret != ("ev", "pp", i):
+                    got_wrong.append({"round": i, "got": ret})
+            if yields:
+                yields.stop()
+    finally:
+        if yields and yields.active:
+            yields.stop()
+        for _ in range(rounds):
+            go.release()
+        th.join(10)
+        release_trigger_fds(inp, [ts])
+    sig = ("C08", "pingpong", case["seed"], rounds)
+    ctx.count("pingpong_rounds", rounds)
+    if lost:
+        ctx.judge(False, case, sig, "C08:missed-wakeup", "every round's event returned by its request", lost[:3])
+    elif got_wrong:
+        ctx.judge(False, case, sig, "C08:events", "event of round i in round i", got_wrong[:3])
+    else:
+        ctx.judge(True, case, sig)
+
+
 def run_case(ctx, case):
+    if case.get("kind") == "pingpong":
+        return run_pingpong(ctx, case)
     if not hasattr(ctx, "interleavings"):
         ctx.interleavings = set()
     if case["kind"] == "seq":
@@ -589,6 +672,9 @@ def run(ctx):
             case = gen_concurrent(rng, R)
             run_conc(ctx, case, yields if (yields and i % 2 == 0) else None)
             ctx.count("concurrent_histories")
+        for i in range(ctx.share(8 if quick else 200)):
+            run_pingpong(ctx, {"kind": "pingpong", "rounds": 400, "seed": rng.randrange(1 << 30)},
+                         yields if i % 2 else None)
     finally:
         if yields:
             yields.uninstall()
